@@ -118,6 +118,32 @@ def consistency(iso, ns, av, limit=400):
             continue
         if fp != p:
             probs.append(('api:full_path:%s' % ns, 'record found at %r reports the path %r' % (p[:100], fp[:100])))
+        if ns in ('iso', 'joliet'):
+            # the older spellings of the same queries
+            try:
+                rec2 = iso.get_entry(p, joliet=(ns == 'joliet'))
+                if rec2 is not rec:
+                    probs.append(('api:get_entry:%s' % ns, '%r: get_entry() and get_record() return different records' % p[:100]))
+            except Exception as ex:
+                probs.append(('api:get_entry-raises:%s' % type(ex).__name__, '%s %s: %s' % (ns, p[:80], ex)))
+            if e[0] == 'file' and isinstance(e[2], (bytes, bytearray)) and len(e[2]) <= 65536 and ns == 'iso':
+                try:
+                    buf = io.BytesIO()
+                    iso.get_and_write_fp(p, buf, blocksize=4096)
+                    # (on Joliet images the same string may also be a Joliet path, which wins)
+                    if buf.getvalue() != bytes(e[2]) and not iso.has_joliet():
+                        probs.append(('api:get_and_write_fp', '%r: %d bytes, get_file_from_iso_fp gave %d' % (p[:100], len(buf.getvalue()), len(e[2]))))
+                except Exception as ex:
+                    if not iso.has_joliet():
+                        probs.append(('api:get_and_write_fp-raises:%s' % type(ex).__name__, '%s: %s' % (p[:80], ex)))
+        if ns == 'rr':
+            try:
+                fm = iso.file_mode(rr_path=p)
+                px = rec.rock_ridge.get_file_mode() if rec.rock_ridge is not None and (rec.rock_ridge.dr_entries.px_record is not None or rec.rock_ridge.ce_entries.px_record is not None) else None
+                if fm != px:
+                    probs.append(('api:file_mode', '%r: file_mode() %r, the record says %r' % (p[:100], fm, px)))
+            except Exception as ex:
+                probs.append(('api:file_mode-raises:%s' % type(ex).__name__, '%s: %s' % (p[:80], ex)))
         if e[0] == 'dir':
             try:
                 names = set()
@@ -137,6 +163,14 @@ def consistency(iso, ns, av, limit=400):
                 probs.append(('api:list_children-raises:%s' % type(ex).__name__, '%s %s: %s' % (ns, p, ex)))
                 continue
             want = children.get(p, set())
+            if ns in ('iso', 'joliet'):
+                try:
+                    old_names = {iso.full_path_from_dirrecord(c).rsplit('/', 1)[1] for c in iso.list_dir(p, joliet=(ns == 'joliet'))
+                                 if c is not None and not c.is_dot() and not c.is_dotdot()}
+                    if old_names != names:
+                        probs.append(('api:list_dir:%s' % ns, '%r: list_dir() and list_children() differ in %s' % (p[:80], sorted(old_names ^ names)[:4])))
+                except Exception as ex:
+                    probs.append(('api:list_dir-raises:%s' % type(ex).__name__, '%s %s: %s' % (ns, p[:80], ex)))
             if names != want:
                 probs.append(('api:list_children:%s' % ns, '%r lists %s, walk() reported %s' % (p[:80], sorted(names ^ want)[:4], len(want))))
     return probs
